@@ -1,17 +1,18 @@
 """C10 -- the v2 API is total.  G: every tokenizer vector replayed under recover.  T: structure-aware mutation x thresholds 0..1 x corpora (small, empty, with empty documents, full), per-call watchdog."""
 import time
 from lib import vlib
-from checks.v2common import Acc, trace_leg, tok_replay, match_model, match_replay
+from checks.v2common import pad_leg, Acc, trace_leg, tok_replay, match_model, match_replay
 PID = "C10"
 def run():
     t0 = time.time(); v = vlib.Verdict(PID); acc = Acc(); th = vlib.TIER == "thorough"
-    tok_replay(v, acc, ["D", "E"], 4 if th else 3, sig="tokenizer-replay")
+    tok_replay(v, acc, ["D", "E", "I"], 4 if th else 3, sig="tokenizer-replay")   # I: character references that leave a lone punctuation mark
     match_model(acc, ["T100"])
     match_replay(v, acc, ["T100", "T80"], 3, 5, sig="stage-replay")            # every index the stage functions compute, under recover
+    pad_leg(v, acc)                                       # the read buffer under the tokenizer: multi-byte text at every alignment
     recs, lines = trace_leg(v, acc, "c10", [PID], env={"VERIF_CALL_TIMEOUT": "120"})
     calls = [r for r in recs if r.get("ev") in ("match", "panic", "timeout")]
     acc.nontrivial += len({r.get("hash") for r in calls}); acc.extra["api_calls"] = len(calls) * 2
     rc = v.finish()
-    vlib.write_evidence(PID, acc.coverage("byte flips, NUL / invalid UTF-8 splices, HTML entities incl. malformed numeric ones, 1 MB tokens and lines, hyphen/newline storms, truncation at the buffer boundary; thresholds {0, 0.2, 0.5, 0.8, 0.9, 1.0}; corpora: 3 documents, empty, with empty / notice-only / punctuation-only documents, full corpus; Match, MatchFrom, Normalize, AddContent; distinct = distinct input hashes"),
+    vlib.write_evidence(PID, acc.coverage("byte flips, NUL / invalid UTF-8 splices, HTML entities incl. malformed numeric ones, 1 MB tokens and lines, hyphen/newline storms, truncation at the buffer boundary; thresholds {0, 0.2, 0.5, 0.8, 0.9, 0.999, 1-1e-12, the float below 1, 1.0}; corpora: 3 documents, empty, with empty / notice-only / punctuation-only documents, full corpus; Match, MatchFrom, Normalize, AddContent; distinct = distinct input hashes"),
         ["time and space complexity beyond the 120 s per-call watchdog is not part of the property (matching is quadratic below threshold 0.5)"], time.time() - t0, len(v.violations))
     return rc
